@@ -320,3 +320,42 @@ Proof.
     + intros v e [].
     + exact I.
 Qed.
+
+(* ---- FLOAT instance: a coefficient printed with `{:.p}` and read back (Proofs/DisplayFloat.v, on Proofs/DecFloat.v) ----
+   The `{:.p}` text of a positive coefficient denotes a decimal m * 10^-p (m > 0; the decimal (m, -p) is taken as given:
+   quantified, not connected to the printer function here).  The reader is [nofdec]; for binary64 the value read back is
+   exactly round_NE(m * 10^-p) (dec2float_correct), and if the decimal is within 10^-p / 2 of a real x (the printer's
+   rounding contract) and in the normal range, the re-read float is within 10^-p / 2 + 2^-53 * (m * 10^-p) of x.
+   Stated for positive values: the sign is printed as '-' and applied by PrimFloat.opp, which is exact. *)
+From Flocq Require Import Core BinarySingleNaN PrimFloat.
+From SV Require Import Proofs.DecFloat Proofs.DisplayFloat.
+
+Theorem c17_float_reread_fixed : forall (m : Z) (p : nat),
+  (0 < m)%Z ->
+  Rabs (round radix2 (FLT_exp (-1074) 53) ZnearestE (dec_val m (- Z.of_nat p))) < bpow radix2 1024 ->
+  is_finite (Prim2B (@nofdec PrimFloat.float FNum m (- Z.of_nat p))) = true /\
+  B2R (Prim2B (@nofdec PrimFloat.float FNum m (- Z.of_nat p)))
+    = round radix2 (FLT_exp (-1074) 53) ZnearestE (dec_val m (- Z.of_nat p)) /\
+  forall x : R,
+    bpow radix2 (-1022) <= dec_val m (- Z.of_nat p) ->
+    Rabs (x - dec_val m (- Z.of_nat p)) <= powerRZ 10 (- Z.of_nat p) / 2 ->
+    Rabs (B2R (Prim2B (@nofdec PrimFloat.float FNum m (- Z.of_nat p))) - x)
+      <= powerRZ 10 (- Z.of_nat p) / 2 + bpow radix2 (-53) * dec_val m (- Z.of_nat p).
+Proof. exact Proofs.DisplayFloat.float_reread_fixed. Qed.
+Check c17_float_reread_fixed : forall (m : Z) (p : nat),
+  (0 < m)%Z ->
+  Rabs (round radix2 (FLT_exp (-1074) 53) ZnearestE (dec_val m (- Z.of_nat p))) < bpow radix2 1024 ->
+  is_finite (Prim2B (@nofdec PrimFloat.float FNum m (- Z.of_nat p))) = true /\
+  B2R (Prim2B (@nofdec PrimFloat.float FNum m (- Z.of_nat p)))
+    = round radix2 (FLT_exp (-1074) 53) ZnearestE (dec_val m (- Z.of_nat p)) /\
+  forall x : R,
+    bpow radix2 (-1022) <= dec_val m (- Z.of_nat p) ->
+    Rabs (x - dec_val m (- Z.of_nat p)) <= powerRZ 10 (- Z.of_nat p) / 2 ->
+    Rabs (B2R (Prim2B (@nofdec PrimFloat.float FNum m (- Z.of_nat p))) - x)
+      <= powerRZ 10 (- Z.of_nat p) / 2 + bpow radix2 (-53) * dec_val m (- Z.of_nat p).
+Print Assumptions c17_float_reread_fixed.
+
+(* x = 0x1.999999999999ap-4 printed with {:.3} is "0.100" (m = 100, p = 3): read back, it is fl(0.1) again *)
+Example c17_float_reread_tenth :
+  @nofdec PrimFloat.float FNum 100 (- Z.of_nat 3) = (0x1.999999999999ap-4)%float.
+Proof. exact Proofs.DisplayFloat.ex_reread_tenth. Qed.
